@@ -36,7 +36,7 @@ from ..drivers import docutils_doctree, parse_warnings  # noqa: E402
 POOL = [
     ("a", "a"), ("A", "A"), ("a-1", "a-1"), ("a 1", "a 1"), ("b", "b"), ("a!", "a!"), ("`a`", "a"), ("*a* b", "a b"),
     ("a_b", "a_b"), ("é", "é"), ("中", "中"), ("-a", "-a"), ("![i](u) a", " a"), ("<b>x</b> a", "x a"),
-    ("a  b", "a  b"), ("a-1-1", "a-1-1"), ("[a](http://u) `b`", "a b"), ("a.b, c", "a.b, c"), ("!!!", "!!!"),
+    ("a  b", "a  b"), ("a-1-1", "a-1-1"), ("[a](http://u) `b`", "a b"), ("a.b, c", "a.b, c"), ("!!!", "!!!"), ("a\nb", "ab"), ("a  \nc", "ac"),
 ]
 
 
@@ -150,7 +150,14 @@ class TitleSystem(_Base):
         idx, nest = case
         ts = [POOL[i] for i in idx]
         pre = {"top": "", "quote": "> ", "list": "- "}[nest]
-        text = "".join(f"{pre}# {md}\n\n" + ("<!-- -->\n\n" if nest == "list" else "") for md, _ in ts)
+        def heading(md):
+            if "\n" in md:  # a multi-line title can only be written as a setext heading (soft / hard breaks are not part of the slug text)
+                ind = {"top": "", "quote": "> ", "list": "  "}[nest]
+                lines = md.split("\n")
+                return pre + lines[0] + "\n" + "".join(ind + l + "\n" for l in lines[1:]) + ind + "===\n\n"
+            return f"{pre}# {md}\n\n"
+
+        text = "".join(heading(md) + ("<!-- -->\n\n" if nest == "list" else "") for md, _ in ts)
         settings = {"myst_heading_anchors": 2}
         doc, warn = docutils_doctree(text, settings)
         viol = []
